@@ -1,5 +1,5 @@
 """C06: SAST fixes land exactly on reported findings (all subsets of replicated sites) and carry them."""
-import ast, base64, collections, itertools, json, os, random, sys
+import ast, base64, hashlib, collections, itertools, json, os, random, sys
 from vf import corpus, gen, sites as ST
 from vf.runner import run_check, Violation
 b64 = lambda b: base64.b64encode(b.encode() if isinstance(b, str) else b).decode(); unb = base64.b64decode
@@ -90,7 +90,65 @@ def plan(tier, seed):
                                  "result_files": {"r.json": doc(r["tool"], "code.py", fs, decoys)}, "argv": ["{proj}", "--output", "{out}", FLAG[r["tool"]], "{res}/r.json", "--codemod-include", r["codemod"]],
                                  "monitors": {"snap": False}, "n_site_findings": {i: len(sites[i]) for i in range(k)}})
     jobs += same_line_jobs(tier, rnd, recs)
+    jobs += layout_jobs(tier, rnd, recs)
     return jobs
+
+def _region_of(node, src_lines):
+    """Semgrep's SARIF convention for an ast node: 1-based lines, 1-based UTF-8 BYTE columns (ast offsets are byte offsets), end exclusive, snippet = the complete source lines"""
+    return {"sl": node.lineno, "sc": node.col_offset + 1, "el": node.end_lineno, "ec": node.end_col_offset + 1, "snippet": "\n".join(src_lines[node.lineno - 1:node.end_lineno])}
+
+def layout_jobs(tier, rnd, recs):
+    """Semgrep-driven codemods on re-laid-out sources: the reported construct spans several lines and/or has non-ASCII text around it.
+    The finding's region is recomputed for the SAME ast node (k-th node of its type) after the layout transformation."""
+    jobs = []; seen = collections.Counter()
+    LAY = {"hanging": gen.hanging_calls, "exploded": gen.exploded_calls, "nonascii-prefix": gen.nonascii_prefix, "nonascii-last-arg": gen.nonascii_last_argument,
+           "hanging+nonascii-last-arg": lambda s_: (lambda h: gen.nonascii_last_argument(h) if h else None)(gen.hanging_calls(s_)),
+           "hanging+nonascii-prefix": lambda s_: (lambda h: gen.nonascii_prefix(h) if h else None)(gen.hanging_calls(s_))}
+    for r in recs:
+        if r["tool"] != "semgrep" or seen[r["codemod"]] >= (2 if tier == "quick" else 6): continue
+        src = r["input"]
+        if not src.isascii(): continue
+        try: tree = ast.parse(src)
+        except SyntaxError: continue
+        fs = findings_of(r)
+        nodes = [n for n in ast.walk(tree) if isinstance(n, ast.expr) and hasattr(n, "end_lineno")]
+        picks = []
+        for f in fs:
+            m = [(type(n).__name__, [x for x in nodes if type(x) is type(n)].index(n)) for n in nodes if (n.lineno, n.col_offset + 1, n.end_lineno, n.end_col_offset + 1) == (f["sl"], f["sc"], f["el"], f["ec"])]
+            if m: picks.append((f["rule"], m[0]))
+        if not picks or len(picks) != len(fs): continue     # every finding of the seed must be an exact expression node, else the region cannot be carried over
+        seen[r["codemod"]] += 1
+        for lname, fn in LAY.items():
+            try: new = fn(src)
+            except Exception: new = None
+            if not new or new == src: continue
+            try: t2 = ast.parse(new)
+            except SyntaxError: continue
+            nodes2 = [n for n in ast.walk(t2) if isinstance(n, ast.expr) and hasattr(n, "end_lineno")]; lines2 = new.splitlines()
+            regions = []
+            for rule, (tname, idx) in picks:
+                same = [x for x in nodes2 if type(x).__name__ == tname]
+                if idx >= len(same): regions = None; break
+                regions.append(dict(_region_of(same[idx], lines2), rule=rule))
+            if not regions: continue
+            for reported in (True, False):
+                res = [{"ruleId": g["rule"], "message": {"text": "m"}, "locations": [{"physicalLocation": {"artifactLocation": {"uri": "code.py"}, "region": {"startLine": g["sl"], "startColumn": g["sc"], "endLine": g["el"], "endColumn": g["ec"], "snippet": {"text": g["snippet"]}}}}]} for g in regions] if reported else []
+                jobs.append({"id": f"{r['codemod']}|layout:{lname}|{'reported' if reported else 'none'}|{hashlib.sha1(new.encode()).hexdigest()[:8]}", "cid": r["codemod"], "S": (0,) if reported else (), "k": 1, "variant": "layout:" + lname, "tool": "semgrep", "src": new,
+                             "files": {"code.py": b64(new), "other.py": b64("x = 1\n")}, "result_files": {"r.json": json.dumps({"runs": [{"tool": {"driver": {"name": "Semgrep OSS"}}, "results": res}]})},
+                             "argv": ["{proj}", "--output", "{out}", "--sarif", "{res}/r.json", "--codemod-include", r["codemod"]], "monitors": {"snap": False}, "multiline": any(g["sl"] != g["el"] for g in regions)})
+    return jobs
+
+def judge_layout(job, run):
+    v = []; st = collections.Counter(); nt = [job["id"]]; cm = job["cid"]
+    after = unb(run["tree"]["code.py"][2:]).decode("utf-8", "replace")
+    changed = after != job["src"]; reported = bool(job["S"])
+    st["layout_cases"] += 1; st["fired:" + cm] += 1
+    lay = job["variant"].split(":", 1)[1]
+    cls = {"hanging": "multi-line-call", "exploded": "multi-line-call", "hanging+nonascii-last-arg": "multi-line-call+nonascii", "hanging+nonascii-prefix": "multi-line-call+nonascii"}.get(lay, lay)
+    w = {"codemod": cm, "layout": lay, "layout_class": cls, "reported": reported, "src": job["src"], "after": after, "result_file": job["result_files"]["r.json"][:1500]}
+    if reported and not changed: v.append(Violation("C06", f"reported-not-fixed/{cm}/layout:{cls}", f"{cm}: the reported site (layout {lay}) was not rewritten", w))
+    if not reported and changed: v.append(Violation("C06", f"fixes-without-findings/{cm}/layout:{cls}", f"{cm}: file rewritten although the result file reports nothing", w))
+    return v, st, nt
 
 def same_line_jobs(tier, rnd, recs):
     """two equally vulnerable sites on ONE physical line (`site; site`, the first at column 0): report the first, the second, both, none.
@@ -149,6 +207,7 @@ def judge(job, res):
     if run["rc"] != 0 or run["exc"]:
         v.append(Violation("C06", f"run-failed/{cm}", f"rc={run['rc']} exc={run['exc']}", {"argv": job["argv"], "log": run["log"][-600:]})); return v, st, nt
     if job["variant"] == "same-line-double": return judge_same_line(job, run)
+    if job["variant"].startswith("layout:"): return judge_layout(job, run)
     after = unb(run["tree"]["code.py"][2:]).decode("utf-8", "replace")
     hit = ST.sites_changed(job["src"], after, job["k"])
     S = set(job["S"])
